@@ -231,7 +231,7 @@ Next == IF Mode = "kinds" THEN KindsFan \/ KindsNext \/ BadNext \/ Bad3Next
 -----------------------------------------------------------------------------
 (* design-level checks on the final model state *)
 AllAttrs(D) == UNION {UNION {Range(D.units[u].ents[e].attrs) : e \in 1..Len(D.units[u].ents)} : u \in 1..Len(D.units)}
-DummyCx(D) == [unitoff |-> [e \in 1..8 |-> N(77)], infooff |-> [v \in 1..2 |-> [e \in 1..8 |-> N(300)]],
+DummyCx(D) == [defer |-> FALSE, unitoff |-> [e \in 1..8 |-> N(77)], infooff |-> [v \in 1..2 |-> [e \in 1..8 |-> N(300)]],
                stroff |-> [s \in Range(D.strs) |-> 3], lstroff |-> [s \in Range(D.lstrs) |-> 4], lineprog |-> TRUE]
 SizeLemma(D) == \A u \in 1..Len(D.units) : \A e \in 1..Len(D.units[u].ents) :
                   \A a \in Range(D.units[u].ents[e].attrs) : SizeIsEmitLen(a.val, D.units[u].enc, DummyCx(D))
